@@ -316,7 +316,7 @@ def node_enter(i, args=None):
         t.node = i
         if not t.gate.wait(30):
             R.ev("TIMEOUT", i)
-    R.ev("exit", i)
+    R.ev("exit", i, None if t is None else t.id)
     return t
 
 
